@@ -841,11 +841,12 @@ class Index(MutableMapping):
 
         """
         _cache = self._cache
-        while True:
+        with _cache.transact(retry=True):
             try:
                 return _cache[key]
             except KeyError:
                 _cache.add(key, default, retry=True)
+                return default
 
     def peekitem(self, last=True):
         """Peek at key and value item pair in index based on iteration order.
